@@ -12,13 +12,13 @@ RULE = (
     "limit; payload lengths from a mixture hitting 16-byte block and 40-byte line boundaries, contents random / all-zero / trailing 00 runs; "
     "declared length None/1/len-1/len/random; session key default/random/zero-tailed; stream vs path route; MAC check on/off) are written "
     "with Bf3File.write_file and read back with Bf3File.read_file; oracle = equality of comments, component count/order, description items in order, "
-    "blob, actual_len, encrypt flag; then the object read back and the original object are each written once more and must give the first text again. 'grid' enumerates every payload length 1..200 x {random, zero, zero-tail} on both routes. "
+    "blob, actual_len, encrypt flag; then the object read back and the original object are each written once more and must give the first text again. 'rewrite': ONE file object is written, edited through its public attributes (tags added / resized / removed, components appended / inserted / removed / replaced, payloads replaced; up to 6/12 edits with writes in between) and written again - each text must read back as the object's content at that moment (non-trivial = the directory size changed between two writes). 'grid' enumerates every payload length 1..200 x {random, zero, zero-tail} on both routes. "
     "Non-trivial = at least one component and (payload length not a multiple of 16, or trailing zero run, or >= 2 hex lines, or >= 1 comment); distinct by case hash."
 )
 ASSUMPTIONS = [
     "input domain as in the property's quantifier; 'line breaks' read conservatively as every str.splitlines boundary; text encodable as UTF-8 (PYTHONUTF8=1)",
 ]
-REQUIRED_CLASSES = ["route=path", "route=stream", "key=default", "key=zero-tail", "payload.len%16==0", "payload.trailing00", "comps>=2", "cmac=off", "payload>32KiB"]
+REQUIRED_CLASSES = ["route=path", "route=stream", "key=default", "key=zero-tail", "payload.len%16==0", "payload.trailing00", "comps>=2", "cmac=off", "payload>32KiB", "rewrite.directory-size-changed.same-count", "rewrite.directory-size-changed.count-changed"]
 
 
 def check(case, rec):
@@ -94,6 +94,66 @@ def check(case, rec):
             raise Violation("writing %s gives another text than the first write (first difference at character %d: %r vs %r)" % (what, n, text[max(0, n - 20): n + 20], text2[max(0, n - 20): n + 20]))
 
 
+def check_rewrite(case, rec):
+    """ONE file object, written, edited through its public attributes, written again: every text read back is the object at that moment"""
+    from vlib import edits
+
+    model = [edits._copy(c) for c in case["comps"]]
+    f = sut.Bf3File(dict(case["comments"]), [sut.mk_component(c) for c in model])  # distinct objects: an edit touches one position only
+    key = case["key"]
+    kw = {} if key is None else {"session_key": key}
+    writes, sizes, changed = 0, [], set()
+
+    def write_and_compare(when):
+        try:
+            text, src = sut.write_text(lambda target: f.write_file(target, **kw), case["route"])
+            g = sut.Bf3File.read_file(src(), check_cmac=case["check_cmac"], **kw)
+        except Exception as e:
+            raise Violation("%s: write_file / read_file of the edited object raised %s: %s" % (when, type(e).__name__, e))
+        want = [sut.expected_component(c) for c in model]
+        got = [sut.obs_component(c) for c in g.components]
+        if got != want:
+            i = next((i for i in range(min(len(got), len(want))) if got[i] != want[i]), min(len(got), len(want)))
+            raise Violation("%s: the text written does not read back as the object's present content (%d components read, %d in the object; first difference at component %d: read %s, object %s)" % (
+                when, len(got), len(want), i, _short(got[i] if i < len(got) else None), _short(want[i] if i < len(want) else None)))
+        if g.comments != dict(case["comments"]):
+            raise Violation("%s: comments differ" % when)
+
+    write_and_compare("first write")
+    sizes.append((len(model), edits.dir_size(model)))
+    done = []
+    for op in list(case["ops"]) + [("write",)]:
+        if op[0] == "write":
+            now = (len(model), edits.dir_size(model))
+            if done:
+                if now[1] != sizes[-1][1]:
+                    rec.cls("rewrite.directory-size-changed" + (".same-count" if now[0] == sizes[-1][0] else ".count-changed"))
+                    changed.add(1)
+                write_and_compare("write after edits %s" % (done,))
+            sizes.append(now)
+            done = []
+            continue
+        lab = edits.apply(op, model, f, sut.mk_component)
+        if lab:
+            done.append(lab)
+            rec.cls("rewrite.op=" + lab)
+    if changed:
+        rec.nt()
+
+
+def strat_rewrite(tier):
+    from vlib import edits
+
+    return st.fixed_dictionaries(dict(
+        comments=S.comment_list(3),
+        comps=st.lists(S.plain_component(600), max_size=4),
+        key=S.session_key(),
+        route=st.sampled_from(["stream", "path"]),
+        check_cmac=st.booleans(),
+        ops=edits.ops(6 if tier == "quick" else 12),
+    ))
+
+
 def _short(v):
     r = repr(v)
     return r if len(r) < 300 else r[:300] + "..."
@@ -144,6 +204,7 @@ def check_large(case, rec):
 
 def parts(tier):
     return [
+        Part("rewrite", check=check_rewrite, strategy=strat_rewrite, quick=(8, 150), thorough=(16, 1500)),
         Part("roundtrip", check=check, strategy=strat, quick=(16, 400), thorough=(16, 2500)),
         Part("many_components", check=check, enum=enum_many, quick=(4, 0), thorough=(7, 0)),
         Part("large", check=check_large, enum=enum_large, quick=(3, 0), thorough=(6, 0)),
